@@ -1,4 +1,4 @@
 SPECIFICATION Spec
-CONSTANT MaxFaults = 3
-INVARIANTS WriteCountHonest RetransmitOnCrcFault FlushAfterBufferZero AtMostThreeAttempts
+CONSTANTS NWrites = 1 MaxFaults = 3 ProgressReports = 1 LockOnlyIfPositive = FALSE
+INVARIANTS WriteCountHonest NoAcceptedWriteLost RetransmitOnCrcFault FlushAfterBufferZero AtMostThreeAttempts
 CHECK_DEADLOCK FALSE
